@@ -631,7 +631,7 @@ func checkHevcSps(r *vk.Run, s ref.HevcSps) {
 func main() {
 	r := vk.Start("C19", "exploration")
 	lalenv.Quiet()
-	r.Rule("cases: (a) SPS/PPS length x content pattern through seq header, Annex-B, enhanced header and SDP for AVC and HEVC; (b) every list of <=3 units from a 4-unit alphabet x every mix of 3/4-byte start codes x leading zeros 0..2 x trailing zeros 0..2; (c) every 2-byte ASC (31x16x16) + extension variants; (d) SDP for 3 video x 5 audio x 3 rates; (e) the product of H.264 SPS syntax alternatives from the encoder model, and basic H.265 SPS. distinct_nontrivial = distinct (length classes, pattern) + framing shapes + ASC classes + codec pairs + SPS syntax shapes")
+	r.Rule("cases: (a) SPS/PPS length x content pattern through seq header, Annex-B, enhanced header and SDP for AVC and HEVC; (b) every list of <=3 units from a 4-unit alphabet x every mix of 3/4-byte start codes x leading zeros 0..2 x trailing zeros 0..2; (c) every 2-byte ASC (31x16x16) + extension variants; (d) SDP for 3 video x 5 audio x 3 rates; (e) the product of H.264 SPS syntax alternatives from the encoder model, and basic H.265 SPS; (f) the SDP of the RTMP->RTSP remuxer for every arrangement of the sequence headers and <= 3 other messages x AVC / HEVC / enhanced HEVC, with the caller reusing its message buffer. distinct_nontrivial = distinct (length classes, pattern) + framing shapes + ASC classes + codec pairs + SPS syntax shapes")
 	r.Assume("encoder model and Annex-B splitter lib/ref/h26x.go (H.264 7.3.2.1.1/7.4.1/Annex B, H.265 7.3.2.2), SDP reader lib/ref/sdp.go",
 		"parameter sets used where lal must parse them are a valid SPS followed by filler (lal's builders call ParseSps); NAL units never end in 0x00 (H.264 7.4.1)",
 		"the dimensions lal reports for HEVC are taken as hevc.Context.Width/Height, which is what the stat API publishes")
@@ -750,6 +750,8 @@ func runAll(r *vk.Run, quick bool) {
 			}
 		}
 	}
+	// (f) the remuxer's SDP under message-buffer reuse
+	r.Cov("remux_sdp_cases", remuxSdpCases(r, quick))
 	// (e) H.264
 	profiles := []uint8{66, 77, 88, 100, 110, 122, 244, 44, 83, 86, 118, 128, 138, 139, 134, 135}
 	type dim struct{ w, h uint64 }
